@@ -265,10 +265,20 @@ fn enc_result(rows: &[Vec<Val>], o: &mut Vec<i64>) {
     o.push(rows.len() as i64);
     for r in rows { o.push(r.len() as i64); for v in r { v.enc(o); } }
 }
+/// length and two 61-bit polynomial hashes of the text (= Run_C05.hash_text)
+fn hash_text(s: &str, o: &mut Vec<i64>) {
+    let cs: Vec<char> = s.chars().collect();
+    o.push(cs.len() as i64);
+    for (mul, md, init) in [(1000003u128, 2305843009213693951u128, 7u128), (998244353u128, 2305843009213693921u128, 11u128)] {
+        let mut h = init;
+        for c in &cs { h = (h * mul + (*c as u128) + 1) % md; }
+        o.push(h as i64);
+    }
+}
 fn obs_query(a: &Answer) -> Vec<i64> {
     if !a.parse_ok { return vec![1]; }
     let mut o = vec![];
-    enc_str(&a.sql, &mut o);
+    hash_text(&a.sql, &mut o);
     o.push(a.vo.len() as i64);
     for (i, s) in &a.vo { o.push(*i as i64); enc_str(s, &mut o); }
     o.extend(&a.flags);
